@@ -146,6 +146,8 @@ impl Report {
                 (Some(a), Some(b)) => {
                     if k.starts_with("max_") || k.ends_with("_bound") {
                         self.extra.insert(k, json!(a.max(b)));
+                    } else if k.starts_with("min_") {
+                        self.extra.insert(k, json!(a.min(b)));
                     } else {
                         self.extra.insert(k, json!(a + b));
                     }
